@@ -44,7 +44,7 @@ Definition impl_single (d : db) (q : query) : list orow := q_out d q.
 (* ------------------------------------------------------------------ (2) classes of join queries *)
 (* Classes 2-8 and 10 (SELECT * over a join, expression items, blind / outer-join pushdown, join
    condition lost by reordering, RIGHT / FULL unmatched rows projected by name, hash join residual,
-   hash join -0.0 / 0.0) are repaired in /repo (commits b0661ca, 9cb158a, 2cb4862, 0005072, 07d36f7,
+   hash join -0.0 / 0.0) are repaired in /repo (commits b0661ca, ea8e0e0, 2cb4862, 0005072, 07d36f7,
    5934993, 755317f): their witnesses must now satisfy the property.  One class is open:
    9 = a join whose input is itself a join (executed by separate, simplified code). *)
 Definition q_class (d : db) (q : query) : Z :=
